@@ -50,6 +50,14 @@ for node in job['docs']:
         out.append(rec)
         continue
     detached = []
+    early = rng.random() < 0.5
+    if early:
+        # serialise first (whatever a successful check remembers must not outlive the changes that follow)
+        try:
+            quiet(lambda: root.to_string(intelligent_choice=rng.random() < 0.3))
+            rec['ops'].append(['to_string'])
+        except Exception as ex:
+            rec['ops'].append(['to_string', 'raised ' + type(ex).__name__])
     if rng.random() < 0.4:
         # scripted: an admissible-by-name child that is REJECTED in the current state (the matcher tries its re-arrangements and gives up), then a
         # child with children of its own is removed and taken apart, then the document is serialised
@@ -115,6 +123,12 @@ for node in job['docs']:
                     quiet(lambda: d.remove(c))
         except Exception as ex:
             rec['ops'][-1].append('raised ' + type(ex).__name__)
+        if early and rng.random() < 0.3:
+            try:
+                quiet(root.to_string)
+                rec['ops'].append(['to_string'])
+            except Exception as ex:
+                rec['ops'].append(['to_string', 'raised ' + type(ex).__name__])
     for ic in (False, True):
         try:
             rec['ic%d' % ic] = quiet(lambda: root.to_string(intelligent_choice=ic))
